@@ -20,6 +20,8 @@ def run(rep):
     lr.rule_doc_escapes(rep, "C12.doc")
     br.rule_rect(rep, "C12.rect")
     mr.rule_token_table(rep, "C12.row", "C12.rowcol")
+    # the cells reach the token (and so the builder) as the splitter made them
+    mr.rule_sink(rep, "C12.sink", "C12.crlf", want=("fields",))
     # a row reaches the splitter as one physical line: lines end at line feeds only
     lr.rule_scanner(rep, "C12.line", "C12.scan")
     # no hidden state: what the property promises for one use must hold for every later use as well
